@@ -17,6 +17,7 @@ import (
 func init() { register(&Spec{ID: "C02", Targets: []load.Target{load.Linux}, Run: runC02}) }
 
 func runC02(c *core.Ctx) {
+	runFixtures(c, "bounds", "drop")
 	c.Explain("Bytes, offsets and EOF timing are values and not decidable statically. Decided mechanisms: (R02.1) access-mode capability: no method of the read-only handle wrapper reaches a content mutator (blob.Set/Grow/Truncate), no method of the write-only wrapper reaches a content reader (blob.View/Slice), over the static call graph — a read-only handle can never change contents, a write-only handle can never read them; (R02.2) directory guard as sibling agreement: every byte-I/O method of the file type that touches the content blob (read, write, truncate) has an IsDir() guard before the blob access whose taken edge returns an ErrIsDir-class error; (R02.3) live size: in the methods that compare an offset/size parameter with the file size, the size is the length of the content loaded in that call (a Size() of the record cached at open time is flagged), so every handle sees the current size; (R02.4) validate before mutate: on every path of the write and truncate methods the first content mutator is dominated by the rejection of a negative offset/size. NOT claimed: transferred bytes, offsets, EOF exactness, zero fill, O_APPEND placement, coherence beyond R02.3.")
 	c.Assume("the static call graph is complete for these wrappers (they call the inner *file statically)")
 	c.RuleDoc("R02.1", "access-mode wrappers cannot reach forbidden content operations")
